@@ -20,109 +20,6 @@ import LA.Gen.LockFacts
 namespace LA.ReasmConc
 open LA.Reasm
 
-/-! ### readable counters over the history and the return values -/
-
-/-- number of CompareAndSwap(closed,0,1) steps that succeeded. -/
-def nCasOk (tr : List Ev) : Nat := tr.countP (fun e => match e with | .cas _ true => true | _ => false)
-/-- number of CompareAndSwap steps that failed. -/
-def nCasFail (tr : List Ev) : Nat := tr.countP (fun e => match e with | .cas _ false => true | _ => false)
-/-- how many finished calls returned `r`, over all threads. -/
-def nRet (r : Ret) (ts : List Thread) : Nat := (ts.map (fun t => t.rets.count r)).sum
-
-theorem wCas_trace (tr : List Ev) : wCas.trace tr = nCasOk tr := by
-  induction tr with
-  | nil => rfl
-  | cons e tr ih =>
-    rw [Weight.trace_cons, ih]
-    simp only [nCasOk, List.countP_cons]
-    cases e with
-    | cas j b => cases b <;> simp [wCas, Nat.add_comm]
-    | _ => simp [wCas]
-
-theorem wErr_trace (tr : List Ev) : wErr.trace tr = nCasFail tr := by
-  induction tr with
-  | nil => rfl
-  | cons e tr ih =>
-    rw [Weight.trace_cons, ih]
-    simp only [nCasFail, List.countP_cons]
-    cases e with
-    | cas j b => cases b <;> simp [wErr, Nat.add_comm]
-    | _ => simp [wErr]
-
-theorem wCas_rets (rs : List Ret) : wCas.rets rs = rs.count .closeOk := by
-  induction rs with
-  | nil => rfl
-  | cons r rs ih =>
-    rw [Weight.rets_cons, ih, List.count_cons]
-    cases r <;> simp [wCas, Nat.add_comm]
-
-theorem wClr_rets (rs : List Ret) : wClr.rets rs = rs.count .closeOk := by
-  induction rs with
-  | nil => rfl
-  | cons r rs ih =>
-    rw [Weight.rets_cons, ih, List.count_cons]
-    cases r <;> simp [wClr, Nat.add_comm]
-
-theorem wErr_rets (rs : List Ret) : wErr.rets rs = rs.count .closeErr := by
-  induction rs with
-  | nil => rfl
-  | cons r rs ih =>
-    rw [Weight.rets_cons, ih, List.count_cons]
-    cases r <;> simp [wErr, Nat.add_comm]
-
-theorem rets_le_threads (w : Weight) (ts : List Thread) :
-    (ts.map (fun t => w.rets t.rets)).sum ≤ w.threads ts := by
-  induction ts with
-  | nil => simp [Weight.threads]
-  | cons t ts ih =>
-    simp only [Weight.threads, List.map_cons, List.sum_cons, Weight.thread] at ih ⊢
-    omega
-
-theorem mem_le_sum : ∀ (l : List Nat) (x : Nat), x ∈ l → x ≤ l.sum := by
-  intro l
-  induction l with
-  | nil => intro x h; simp at h
-  | cons a l ih =>
-    intro x h
-    simp only [List.sum_cons]
-    rcases List.mem_cons.mp h with rfl | h
-    · omega
-    · have := ih x h; omega
-
-theorem trace_pos {w : Weight} {tr : List Ev} (h : 0 < w.trace tr) : ∃ e ∈ tr, 0 < w.we e := by
-  induction tr with
-  | nil => simp at h
-  | cons e tr ih =>
-    simp only [Weight.trace_cons] at h
-    by_cases he : 0 < w.we e
-    · exact ⟨e, List.mem_cons_self .., he⟩
-    · obtain ⟨e', he', hw⟩ := ih (by omega)
-      exact ⟨e', List.mem_cons_of_mem _ he', hw⟩
-
-/-! ### the invariants hold in every reachable state -/
-
-theorem reach_conserved (maxSize timeout : Int) (progs : List Prog) (sched : List Tid) :
-    Conserved (run (init maxSize timeout progs) sched) :=
-  run_induct (fun _ _ _ h hc => conserved_step h hc) sched _ (conserved_init _ _ _)
-
-theorem reach_flushed (maxSize timeout : Int) (progs : List Prog) (sched : List Tid) :
-    Flushed (run (init maxSize timeout progs) sched) :=
-  (run_induct (P := fun s => Conserved s ∧ Flushed s)
-    (fun _ _ _ h hc => ⟨conserved_step h hc.1, flushed_step h hc.1 hc.2⟩) sched _
-    ⟨conserved_init _ _ _, flushed_init _ _ _⟩).2
-
-theorem reach_uniform (maxSize timeout : Int) (progs : List Prog) (sched : List Tid) :
-    Uniform (run (init maxSize timeout progs) sched) :=
-  run_induct (fun _ _ _ h hc => uniform_step h hc) sched _ (uniform_init _ _ _)
-
-theorem reach_closedOnce (maxSize timeout : Int) (progs : List Prog) (sched : List Tid) :
-    ClosedOnce (run (init maxSize timeout progs) sched) :=
-  run_induct (fun _ _ _ h hc => closedOnce_step h hc) sched _ (closedOnce_init _ _ _)
-
-theorem reach_balanced {w : Weight} (hw : w.Sound) (maxSize timeout : Int) (progs : List Prog)
-    (sched : List Tid) : w.Balanced (run (init maxSize timeout progs) sched) :=
-  run_induct (fun _ _ _ h hc => Weight.balanced_step hw h hc) sched _ (Weight.balanced_init hw _ _ _)
-
 /-! ### the property -/
 
 /-- Conservation, at every point of every interleaving: the messages delivered so far, those
@@ -153,22 +50,30 @@ every `Clear` step in the history (the successful Close's flush), every message 
 step ran before that `Clear` has been delivered.  A push that returned before Close was
 invoked has run its `put` before the Close's CAS, hence before its `Clear`: this is the
 property's "every message whose push returned before Close was invoked has been delivered".
-The last clause links the return value to the history: a Close that returned nil (in any
-state, terminal or not) has run its `Clear`. -/
+The last two clauses link "a Close succeeded" to that history event: a Close that returned nil
+(in any state, terminal or not) has run its `Clear`; and in a terminal state the closed flag
+being set (a CAS succeeded) implies the `Clear` has run. -/
 theorem C11_quiescent (maxSize timeout : Int) (progs : List Prog) (sched : List Tid) :
     let s := run (init maxSize timeout progs) sched
     (Terminal s → pending s.threads = []) ∧
     (Terminal s → ∀ later earlier j outs, s.trace = later ++ Ev.clear j outs :: earlier →
         ∀ m ∈ putLog earlier, m ∈ delivered s.trace) ∧
-    ((∃ t ∈ s.threads, Ret.closeOk ∈ t.rets) → ∃ j outs, Ev.clear j outs ∈ s.trace) := by
+    ((∃ t ∈ s.threads, Ret.closeOk ∈ t.rets) → ∃ j outs, Ev.clear j outs ∈ s.trace) ∧
+    (Terminal s → s.st.closed = true → ∃ j outs, Ev.clear j outs ∈ s.trace) := by
   intro s
+  have hclr : 0 < wClr.trace s.trace → ∃ j outs, Ev.clear j outs ∈ s.trace := by
+    intro h
+    obtain ⟨e, he, hw⟩ := trace_pos (w := wClr) (tr := s.trace) h
+    cases e with
+    | clear j outs => exact ⟨j, outs, he⟩
+    | _ => simp [wClr] at hw
   have hpend : Terminal s → pending s.threads = [] := by
     intro hT
     unfold pending
     rw [List.flatMap_eq_nil_iff]
     intro t ht
     rw [hT t ht]; rfl
-  refine ⟨hpend, ?_, ?_⟩
+  refine ⟨hpend, ?_, ?_, ?_⟩
   · intro hT later earlier j outs hsplit m hm
     have := reach_flushed maxSize timeout progs sched later earlier j outs hsplit m hm
     rw [hpend hT] at this
@@ -182,10 +87,16 @@ theorem C11_quiescent (maxSize timeout : Int) (progs : List Prog) (sched : List 
       have hle : wClr.rets t.rets ≤ (s.threads.map (fun t => wClr.rets t.rets)).sum :=
         mem_le_sum _ _ (List.mem_map.mpr ⟨t, ht, rfl⟩)
       omega
-    obtain ⟨e, he, hw⟩ := trace_pos (w := wClr) (tr := s.trace) (by omega)
-    cases e with
-    | clear j outs => exact ⟨j, outs, he⟩
-    | _ => simp [wClr] at hw
+    exact hclr (by omega)
+  · intro hT hcl
+    have hb : wClr.threads s.threads = wClr.trace s.trace := reach_balanced wClr_sound maxSize timeout progs sched
+    have hb2 : wCas.threads s.threads = wCas.trace s.trace := reach_balanced wCas_sound maxSize timeout progs sched
+    have h1 : wCas.trace s.trace = 1 := by
+      rw [(reach_closedOnce maxSize timeout progs sched).1, hcl]; rfl
+    have h2 : wClr.threads s.threads = wCas.threads s.threads := by
+      rw [Weight.threads_terminal wClr hT, Weight.threads_terminal wCas hT]
+      simp only [wClr_rets, wCas_rets]
+    exact hclr (by omega)
 
 /-- Exactly once after quiescence: with pairwise distinct pushed messages, in a terminal state
 every message put before the successful Close's `Clear` has been delivered exactly once. -/
